@@ -98,7 +98,10 @@ def parse_blocks(data, plan):
     return toks, extra
 
 
-ARG_VALUES = ["plain", "naïve-ü", "a_b-c", True, False, 0, -7, 2 ** 53 + 1, 2 ** 70, 1.5, -0.0, 1e300, "1e3", "True", "nul"]
+# "caf\udce9.csv": a str carrying a non-UTF-8 byte as a surrogate escape - what os.listdir / os.fsdecode / os.environ give for a
+# Latin-1 file name; it reaches the command as that byte and must be recorded so that it decodes back to the same str
+ARG_VALUES = ["plain", "naïve-ü", "a_b-c", True, False, 0, -7, 2 ** 53 + 1, 2 ** 70, 1.5, -0.0, 1e300, "1e3", "True", "nul",
+              "caf\udce9.csv", "\U0001f600-emoji"]
 KEYS = ["alpha", "b_2", "Zed", "k-x"]
 
 
